@@ -1,8 +1,58 @@
 /-
   C06 — a finished or failed render leaves nothing behind.  Property theorems only.
+  Bookkeeping level: the provide registries (`perfutil/provide.py`), all worlds, all ids.
+  The whole-pipeline statement `C06_full` is open and false on the unchanged tree
+  (`known_findings.json`: registry entries and a render_context layer survive a failing render).
 -/
 import Djc.Proofs.Render
 namespace Djc.Props.C06
 open Djc.Tpl Djc.Render Djc.Proofs.Render
+
+/-- **Unregistering an id that never registered changes nothing** (every component calls it when it
+finishes, whether or not it was rendered under a provider). -/
+theorem unregister_unknown_is_noop (rid : Nat) (w : World) (h : w.allRefIds.contains rid = false) :
+    unregisterRefW rid w = (none, w) := by
+  unfold unregisterRefW
+  rw [if_pos (by rw [h]; rfl)]
+
+/-- **A provider without components leaves nothing behind**: entering `{% provide %}` with a fresh
+id and leaving it again (success path) restores both registries exactly, in any world. -/
+theorem empty_provider_leaves_nothing (pid : Nat) (payload : Layer) (w : World)
+    (h1 : alGet pid w.provideCache = none) (h2 : alGet pid w.provideRefs = none) :
+    cacheCleanupW pid (holdSelfW pid { w with provideCache := alSet pid payload w.provideCache }) = (none, w) := by
+  unfold cacheCleanupW holdSelfW
+  simp only [h2, Option.getD_none, List.contains_nil, List.nil_append, alGet_alSet_same]
+  simp only [Bool.false_eq_true, if_false, alGet_alSet_same]
+  have hf : ([pid].filter (· ≠ pid)) = [] := by simp
+  simp only [hf, List.isEmpty_nil, if_true]
+  unfold popProvideCacheW
+  simp only [alHas, alGet_alSet_same, Option.isSome_some, if_true]
+  have e1 : alDel pid (alSet pid ([] : List Nat) (alSet pid [pid] w.provideRefs)) = w.provideRefs := by
+    have : alSet pid ([] : List Nat) (alSet pid [pid] w.provideRefs) = alSet pid [] w.provideRefs := by
+      generalize w.provideRefs = l at h2
+      induction l with
+      | nil => simp [alSet]
+      | cons a rest ih =>
+        obtain ⟨ak, av⟩ := a
+        by_cases hk : ak = pid
+        · simp [alGet, hk] at h2
+        · simp only [alGet, hk, if_false] at h2
+          simp [alSet, hk, ih h2]
+    rw [this, alDel_alSet_fresh _ _ _ h2]
+  have e2 : alDel pid (alSet pid payload w.provideCache) = w.provideCache := alDel_alSet_fresh _ _ _ h1
+  simp [e1, e2]
+
+example :
+    let r := cacheCleanupW 7 (holdSelfW 7 { ({} : World) with provideCache := alSet 7 [] [] })
+    r.1 = none ∧ r.2.provideCache.length = 0 ∧ r.2.provideRefs.length = 0 := by
+  decide
+
+/-- The property at full strength for the model of the code: whatever callback raises, every
+registry of the world is as before the render.  OPEN; false on the unchanged tree. -/
+def C06_full : Prop :=
+  ∀ (env : Env) (fuel : Nat) (page : List Node) (vars : Layer),
+    let w := ((renderNodes env fuel page (rootCtx vars)).run.run {}).2
+    w.ctxCache = [] ∧ w.rendererCache = [] ∧ w.childAttrs = [] ∧ w.provideCache = [] ∧ w.provideRefs = [] ∧
+      w.allRefIds = [] ∧ w.rcLeak = 0
 
 end Djc.Props.C06
